@@ -22,6 +22,8 @@ ASSUMPTIONS = [
     "Meek (1995): for a PDAG with a consistent extension the closure under rules 1-4 equals the union graph of its extensions",
     "for E empty nothing is demanded of maximally_orient; any member of E is accepted from pdag_to_dag",
     "p>=6 sampled",
+    "pdag_to_dag / has_consistent_extension / maximally_orient are also given the PDAG as a real matrix in the library's documented "
+    "'!= 0' convention (undirected pairs with same-sign entries); all_dags is only used on 0/1 matrices",
 ]
 
 
@@ -57,12 +59,32 @@ def _rule_usage(utils, A):
     return sorted(used)
 
 
+def _weighted_pdag(P, salt):
+    """The PDAG as a real matrix: directed edges carry weights of any sign, the two entries of an undirected edge
+    carry (different) non-zero weights of the same sign (opposite signs would cancel in A + A.T, outside the domain)."""
+    p = len(P)
+    d, u = G.split(P)
+    A = np.zeros((p, p))
+    vals = [1.0, -1.0, 0.5, -2.0, 1.5, -0.5, 3.0, -1.0]
+    k = salt
+    for i in range(p):
+        for j in range(p):
+            if d[i] >> j & 1:
+                A[i, j] = vals[k % 8]
+                k += 1
+            elif u[i] >> j & 1 and i < j:
+                s = 1.0 if (k % 3) else -1.0
+                A[i, j], A[j, i] = s * (1 + k % 2), s * 0.5
+                k += 1
+    return A
+
+
 def check(case):
     import sempler.utils as utils
     P = G.rows_from_lists(case["P"])
     p = len(P)
     E = G.extensions_table(P) if p <= 5 else G.extensions_bruteforce(P)
-    A = to_np(P, case.get("dtype", "int"))
+    A = to_np(P, case.get("dtype", "int")) if case.get("dtype") != "weighted" else _weighted_pdag(P, case.get("salt", 0))
     keep = A.copy()
     lab = []
 
@@ -91,7 +113,7 @@ def check(case):
             lab.append("inferred")
             if case.get("rules", True):
                 lab += _rule_usage(utils, A)
-        if case.get("alldags"):
+        if case.get("alldags") and case.get("dtype") != "weighted":     # all_dags is only specified for 0/1 PDAGs
             res = must(lib(utils.all_dags, M), "all_dags(maximally_orient)")
             gs, n = result_set(res, p, "all_dags")
             compare_sets(gs, n, E, "all_dags(maximally_orient(P))", "P=%s" % case["P"])
@@ -108,7 +130,7 @@ def _run_exh(acc, job):
     for k, (code, P) in enumerate(pdag_codes(job["p"])):
         if k % job["nshards"] != job["shard"]:
             continue
-        case = {"sub": "pdag_exh", "P": G.lists_from_rows(P), "dtype": DTYPE_NAMES[code % 6],
+        case = {"sub": "pdag_exh", "P": G.lists_from_rows(P), "dtype": (DTYPE_NAMES + ["weighted"])[code % 7], "salt": code % 5,
                 "alldags": job["p"] <= 4 or code % 53 == 0}
         try:
             lab = check(case)
@@ -124,7 +146,8 @@ def _uniform_case(draw):
     P = draw(S.pdag(6, 8, max_undirected=9, weights=(4, 2, 2)))
     if draw(st.integers(0, 2)) == 0:
         P = draw(S.embedded(draw(S.pdag(3, 6, max_undirected=8, weights=(2, 3, 3)))))
-    return {"sub": "pdag_hyp", "P": P, "dtype": draw(st.sampled_from(DTYPE_NAMES)), "alldags": draw(st.integers(0, 5)) == 0}
+    return {"sub": "pdag_hyp", "P": P, "dtype": draw(st.sampled_from(DTYPE_NAMES + ["weighted"])), "salt": draw(st.integers(0, 7)),
+            "alldags": draw(st.integers(0, 5)) == 0}
 
 
 @st.composite
@@ -154,7 +177,8 @@ def _meek_case(draw):
         chosen = draw(st.lists(st.sampled_from(rev), min_size=min(lo, len(rev)), max_size=min(3, len(rev)), unique=True))
         for (i, j) in chosen:          # orient i -> j as in the DAG (background knowledge)
             cp[j] &= ~(1 << i)
-    return {"sub": "pdag_meek", "P": G.lists_from_rows(tuple(cp)), "dtype": draw(st.sampled_from(DTYPE_NAMES)), "alldags": draw(st.integers(0, 5)) == 0}
+    return {"sub": "pdag_meek", "P": G.lists_from_rows(tuple(cp)), "dtype": draw(st.sampled_from(DTYPE_NAMES + ["weighted", "weighted"])),
+            "salt": draw(st.integers(0, 7)), "alldags": draw(st.integers(0, 5)) == 0}
 
 
 def plan(tier, seed):
